@@ -164,7 +164,7 @@ func genTime32(t *rapid.T, label string) time.Time {
 
 func genTime64(t *rapid.T, label string) time.Time {
 	s := rapid.OneOf(rapid.SampledFrom([]int64{0, 1, -1, 1231006505, 1 << 31, 1<<32 - 1, 1 << 32, -1 << 31, 1<<62 - 1, -(1 << 62)}),
-		rapid.Int64Range(-(1 << 62), 1<<62-1)).Draw(t, label)
+		rapid.Int64Range(-(1<<62), 1<<62-1)).Draw(t, label)
 	ns := int64(0)
 	if rapid.IntRange(0, 3).Draw(t, label+"Sub") == 0 {
 		ns = int64(rapid.IntRange(1, 999999999).Draw(t, label+"Ns"))
